@@ -193,6 +193,15 @@ def check_rule(ctx, ast, rng, text=None, only=None, atom_order=None):
         ctx.count('balanced_rules_read')
     pool = mol_pool(ctx.tier)
     mols = rng.sample(pool, min(len(pool), 14 if ctx.tier == 'quick' else 40))
+    if len(text) % 4 == 0 and not only:
+        # copies / unpickled copies of the rule object (where it can be cloned
+        # at all) give the product sets of the rule object
+        from vmon.core import clones
+        cm = [m_ for _, m_, _ in mols[:4]]
+        clones.agreement(ctx, case, q, [
+            ('RunReactants(molecule %d)' % k_, lambda r_, m_=m_:
+             canon_products(r_.RunReactants(Chem.Mol(m_))))
+            for k_, m_ in enumerate(cm)], 'reaction rule', 'before')
     if charge:
         mols = mols[:8] + charged_pool()
     mols = [tuple(x) + (None,) for x in mols]
